@@ -2,6 +2,8 @@ package main
 
 import "fmt"
 
+var tdOpaque = []string{"crypto/", "encoding/pem", "math/big", "github.com/stretchr/testify", "crypto"}
+
 func properties() map[string]*PropertySpec {
 	m := map[string]*PropertySpec{}
 	add := func(p *PropertySpec) { m[p.ID] = p }
@@ -122,7 +124,8 @@ func properties() map[string]*PropertySpec {
 					// only the FIRST close matters: ask whether every close can come after both returns
 					continue
 				}
-				v, order := po.Query(lt(stops[0], x), lt(runs[0], x))
+				// both returned, and x not yet executed or executed later
+				v, order := po.Query(ex(stops[0]), ex(runs[0]), fmt.Sprintf("(or (not x%d) (and %s %s))", x, lt(stops[0], x), lt(runs[0], x)))
 				if v == Sat {
 					out = append(out, POFinding{Key: name, Detail: name + ": a consistent reordering of the recorded events puts it after both returns", Order: po.Describe(order)})
 					break
@@ -130,9 +133,9 @@ func properties() map[string]*PropertySpec {
 			}
 		}
 		if lc := targets["listener closed only after Stop and Run returned"]; len(lc) > 0 {
-			var extra []string
+			extra := []string{ex(stops[0]), ex(runs[0])}
 			for _, x := range lc {
-				extra = append(extra, lt(stops[0], x), lt(runs[0], x))
+				extra = append(extra, fmt.Sprintf("(or (not x%d) (and %s %s))", x, lt(stops[0], x), lt(runs[0], x)))
 			}
 			if v, order := po.Query(extra...); v == Sat {
 				out = append(out, POFinding{Key: "listener open after Stop and Run returned", Detail: "every close of the listener can be ordered after both returns", Order: po.Describe(order)})
@@ -189,12 +192,17 @@ func properties() map[string]*PropertySpec {
 		Harnesses: []HarnessSpec{
 			td("H_TD_C20_step", "step", "arbitrary store (each pool user present or not, 1-2 mail values, optional description, optional group) x one of add / delete / modify{add,delete,replace} x {mail,description} x 0..2 values / search, then every pool entry is searched and compared with the model", ""),
 			td("H_TD_C20_seq", "seq", "every sequence of two operations from the empty store", ""),
+			td("H_TD_C20_multichange", "multichange", "one Modify request with two changes (each add / delete / replace on mail or description, 0..2 + 0..1 values) against a present entry of arbitrary shape", ""),
 		}})
 	add(&PropertySpec{ID: "C18",
 		Functions: "(*Server).Run (WithTLSConfig, tls.NewListener wrapping, Accept), newConn, (*conn).initConn, (*conn).serveRequests, readRequest, Run$1 teardown",
-		Outside:   []string{"that a TLS connection yields application bytes only after a handshake satisfying its configuration is the crypto/tls contract (DESIGN §5.5): assumed, not verified; plaintext bytes, a missing or wrong client certificate and an abandoned connect are all 'the handshake does not complete'", "testdirectory.GetTLSConfig / Start (x509, ecdsa, pem plumbing) is not encoded: the WithMTLS option itself is outside this check (O4 of the design is not claimed)"},
+		Outside:   []string{"that a TLS connection yields application bytes only after a handshake satisfying its configuration is the crypto/tls contract (DESIGN §5.5): assumed, not verified; plaintext bytes, a missing or wrong client certificate and an abandoned connect are all 'the handshake does not complete'", "testdirectory.GetTLSConfig / Start run with the x509 / ecdsa / pem / big / testify calls replaced by opaque stubs that never fail: only the configuration plumbing (ClientAuth, ClientCAs identity, which configuration reaches the listener) is decided"},
 		Harnesses: []HarnessSpec{
 			eng("H_C18_tls", "tls", "configurations {none, server authentication, client certificate required} x first client {conforming, failing handshake, abandoned connect} with a conforming second client, spawn-order schedules", ""),
+			{Name: "H_TD_C18_config", Pkg: "testdirectory", Reach: []string{"config"}, Bound: "GetTLSConfig with / without WithMTLS; x509 / ecdsa / pem / testify calls are opaque stubs that never fail",
+				Tweak: func(c *HarnessCfg, tier string) { c.OpaquePkgs = tdOpaque }},
+			{Name: "H_TD_C18_start", Pkg: "testdirectory", Reach: []string{"start"}, Bound: "Start with every subset of {WithNoTLS, WithMTLS}: the configuration the listener is wrapped with",
+				Tweak: func(c *HarnessCfg, tier string) { c.OpaquePkgs = tdOpaque; c.ExtraPkgs["golang.org/x/exp/slices"] = true }},
 		}})
 	poC05 := func(p *PathResult, po *PO) []POFinding {
 		var out []POFinding
@@ -214,7 +222,7 @@ func properties() map[string]*PropertySpec {
 					continue
 				}
 				if a < b {
-					if v, order := po.Query(fmt.Sprintf("(= c%d c%d)", x.idx, y.idx)); v == Sat {
+					if v, order := po.Query(ex(x.idx), ex(y.idx), fmt.Sprintf("(= c%d c%d)", x.idx, y.idx)); v == Sat {
 						return append(out, POFinding{Key: "unsynchronised bufio.Writer use", Detail: "two method calls on the connection's bufio.Writer from different goroutines are not ordered by happens-before", Order: po.Describe(order)})
 					}
 				}
@@ -232,7 +240,7 @@ func properties() map[string]*PropertySpec {
 				if fl < 0 {
 					continue
 				}
-				if v, order := po.Query(lt(x.idx, y.idx), lt(y.idx, fl)); v == Sat {
+				if v, order := po.Query(ex(x.idx), ex(y.idx), ex(fl), lt(x.idx, y.idx), lt(y.idx, fl)); v == Sat {
 					return append(out, POFinding{Key: "frame interleaving", Detail: "a bufio call of another goroutine can fall between one response's Write and its Flush (torn or merged frames)", Order: po.Describe(order)})
 				}
 			}
